@@ -12,6 +12,9 @@ over the alphabet of property C19:
     L<status>  4xx/5xx with Content-Length, connection kept      (default 503)
     N<status>  5xx without length, then close                     (default 500)
     B<status>  bodiless status (no body, no length, kept open)    (default 204)
+               for an interim status (1xx: B102, B103) the final 200 reply of that request is late: the peer
+               sends it as soon as it sees another request on the same connection, before treating that request
+               (a client that re-uses the connection without having seen the final reply reads a foreign result)
     U  truncated body               200, Content-Length n, only the first half of the body, then close
     Z  empty 200                    200, Content-Length 0, kept open
     J  non-JSON 200                 200, Content-Length, an HTML body, kept open
@@ -279,6 +282,7 @@ class ScriptedPeer(object):
 
     def _handle(self, conn, sym):
         first = True
+        late = None          # the final reply owed after an interim status
         while True:
             if not first:
                 sym = None
@@ -313,6 +317,9 @@ class ScriptedPeer(object):
                 my_idx = self.idx - 1
             first = False
             tok, rid = req
+            if late is not None:
+                self._send(conn, late)
+                late = None
             self.log.append({"ev": "exchange", "idx": my_idx, "sym": sym, "tok": tok, "call": None})
             st = sym_status(sym)
             reply = json.dumps({"jsonrpc": "2.0", "result": tok, "id": rid}).encode("utf-8")
@@ -334,6 +341,8 @@ class ScriptedPeer(object):
                 return
             elif k == "B":
                 self._send(conn, self._response(st, None, with_length=False))
+                if 100 < st < 200:
+                    late = self._response(200, reply)
             elif k == "U":
                 full = self._response(200, reply)
                 cut = len(full) - (len(reply) + 1) // 2
